@@ -55,6 +55,11 @@ func RunC16(p *harness.Program, thorough bool) Result {
 	}
 	states[r.InitTxID] = harness.NewMState()
 	states[r.InitTxID-1] = harness.NewMState()
+	if aux(p, 1)%4 == 0 {
+		// the freshly created file, before any commit (both headers were written by the creation)
+		shots = append(shots, shot{img: r.Disk.Image(), states: map[uint64]*harness.MState{r.InitTxID: harness.NewMState(), r.InitTxID - 1: harness.NewMState()}})
+		r.Counters["header-image-of-new-file"]++
+	}
 	seen := 0
 	for i := range p.Items {
 		if v = r.SafeRunItem(i, &p.Items[i]); v != nil {
@@ -87,8 +92,8 @@ func RunC16(p *harness.Program, thorough bool) Result {
 			cp[k] = v
 		}
 		shots = append(shots, shot{img: r.Disk.Image(), states: cp})
-		if len(shots) > 2 {
-			shots = shots[1:]
+		if len(shots) > 3 {
+			shots = append(shots[:1], shots[2:]...) // keep the first (possibly the new file) and the latest two
 		}
 	}
 	if v = r.Finish(); v != nil {
